@@ -189,6 +189,9 @@ theorem fingerprintUptime_type_idem (o : UpOpts) (flags : Nat) (frag : Bool) (a 
     fingerprintUptime o (tcpType flags) frag a b ms = fingerprintUptime o flags frag a b ms := by
   unfold fingerprintUptime; rw [tcpType_idem]
 
+theorem fmod32 (x : Int) : Int.fmod x 4294967296 = Int.emod x 4294967296 :=
+  Int.fmod_eq_emod_of_nonneg x (by decide)
+
 theorem emod32_range (x : Int) : 0 ≤ Int.emod x 4294967296 ∧ Int.emod x 4294967296 < 4294967296 :=
   ⟨Int.emod_nonneg _ (by decide), Int.emod_lt_of_pos _ (by decide)⟩
 
@@ -206,10 +209,10 @@ theorem gen_fingerprintUptime (o : UpOpts) (hD : o.Dom) (frag : Bool) (flags a b
           simp only [gen_validUptime]
           done)
        | (unfold Gen.fingerprintUptime fingerprintUptimeRef
-          simp only [gen_validUptime]
+          simp only [gen_validUptime, fmod32]
           grind)
        | (unfold Gen.fingerprintUptime fingerprintUptimeRef
-          simp only [gen_validUptime]
+          simp only [gen_validUptime, fmod32]
           have hinv : Int.emod (-(Int.emod (((b : Nat) : Int) - ((a : Nat) : Int)) 4294967296) - 1) 4294967296
               = 4294967295 - Int.emod (((b : Nat) : Int) - ((a : Nat) : Int)) 4294967296 := by
             generalize Int.emod (((b : Nat) : Int) - ((a : Nat) : Int)) 4294967296 = x at *
